@@ -106,6 +106,7 @@ static void fam_rle(int64_t iters) {
     for (int64_t i = 0; i < iters; i++) { iter_begin(); int w = rnd_width(); int64_t count = rnd_count(); size_t n; uint8_t* in; int src = (int)(i % 3);
         if (src == 0) { int vw = w > 32 ? 32 : w; int64_t nv = 1 + (int64_t)vrng_below(&R, 200); uint32_t* v = v_exact((size_t)nv * 4); uint32_t top = vw >= 32 ? 0xFFFFFFFFu : ((1u << vw) - 1); for (int64_t k = 0; k < nv; k++) v[k] = vrng_chance(&R, 1, 3) && k ? v[k - 1] : ((uint32_t)vrng_u64(&R) & top); carquet_buffer_t b; carquet_buffer_init(&b); (void)carquet_rle_encode_all(v, nv, vw, &b); in = mutate(b.data, b.size, &n); if (vrng_chance(&R, 1, 2)) w = vw; carquet_buffer_destroy(&b); free(v); }
         else if (src == 1) in = random_bytes(&n);
+        else if (i % 6000 == 2) { /* millions of empty runs: the decoder must step over them without a stack frame per run */ n = 3000000 + vrng_below(&R, 2000000); in = v_exact(n); memset(in, vrng_chance(&R, 1, 2) ? 0x00 : 0x01, n); if (vrng_chance(&R, 1, 2)) w = (int)vrng_below(&R, 9); if (count == 0) count = 8; v_count("long_sequences_of_empty_runs"); }
         else { /* grammar: hostile run headers */ n = 1 + vrng_below(&R, 40); in = v_exact(n); vrng_bytes(&R, in, n); int g = (int)vrng_below(&R, 4); if (g == 0) { for (size_t k = 0; k < n && k < 5; k++) in[k] = 0xFF; } else if (g == 1) { in[0] = 0xFE; if (n > 4) { in[1] = 0xFF; in[2] = 0xFF; in[3] = 0xFF; in[4] = 0x0F; } } else if (g == 2) { in[0] = (uint8_t)((vrng_below(&R, 60) << 1) | 1); } else in[0] = 0; }
         int api = (int)vrng_below(&R, 4); v_case(v_hash(in, n, (uint64_t)w * 7 + (uint64_t)api + (uint64_t)count * 131));
         if (api == 0) { CUR = "rle_decode_all"; uint32_t* out = v_exact((size_t)count * 4); int64_t got = carquet_rle_decode_all(in, n, w, out, count); if (got > count) over("reported-count-exceeds-capacity", "w=%d count=%lld got=%lld", w, (long long)count, (long long)got); free(out); }
